@@ -32,6 +32,12 @@ def run(rep, tier, seed, replay):
     n = 260 if tier == "quick" else 3500
     cases = walklib.gen_cases(seed, n, faults=True)
     cases += walklib.gen_cases(seed + 7, n // 2, faults=True, stack=lambda r, v, d: ("-", "-", []), bounds="none", mode="p")
+    # the same with a MINIMUM depth (which hides entries above it, never error items): the faults lie above, at and below it
+    withmin = walklib.gen_cases(seed + 9, n // 2, faults=True, stack=lambda r, v, d: ("-", "-", []), bounds="none", mode="p")
+    rm = __import__("random").Random(seed + 10)
+    for c in withmin:
+        c.mn = rm.choice(["1", "2", "2", "3", "m2", "m3"])
+    cases += withmin
     # negations that match the faults themselves (never exhaustive, so nothing is pruned): errors pass through
     aimed = walklib.gen_cases(seed + 13, n // 2, faults=True, stack=fault_not_stack, bounds="none", mode="p")
     for c in aimed:
@@ -130,7 +136,8 @@ def run(rep, tier, seed, replay):
                                       c.describe(), impl=c.impl[:400])
                     else:
                         rep.stats["stacks that prune nothing pass every error item through"] += 1
-        if c.stack == "-" and (c.mn, c.mx) == ("-", "-") and c.mode == "g" and c.link == "t" and c.base == "" and (c.expr == "**" or c.expr.endswith("/**")) \
+        # (a minimum depth hides entries, never error items: the clauses below hold with any minimum)
+        if c.stack == "-" and c.mx == "-" and c.mode == "g" and c.link == "t" and c.base == "" and (c.expr == "**" or c.expr.endswith("/**")) \
                 and not any(ch in c.expr[:-3] for ch in "*?[{<(") and unhx(c.f.get("base", "-")) == "@R":
             # every dangling / re-entrant link beneath the glob's prefix is one error item naming it
             import re as _re
@@ -148,7 +155,7 @@ def run(rep, tier, seed, replay):
                         break
             else:
                 rep.stats["glob walk: one error item per dangling / re-entrant link beneath the prefix"] += 1
-        if c.stack == "-" and (c.mn, c.mx) == ("-", "-") and c.mode == "p":
+        if c.stack == "-" and c.mx == "-" and c.mode == "p":
             ulist = [p for p, k, _d in nodes if k == "u"]
             base_p = unhx(c.f.get("base", "-"))
             if base_p == "@R":
